@@ -136,6 +136,9 @@ func judge(t *vk.T, path string, outs []fx.Outcome, key ref.Pt, msg []byte, tag 
 		switch o.State {
 		case "done":
 			ok, kind, detail := fx.VerifySig(o.Value, key, msg)
+			if kind == "schnorr-library-only" {
+				t.Inconclusive("%s", detail)
+			}
 			judged = true
 			t.Obs("signatures_judged|"+kind, 1)
 			if !ok {
